@@ -181,6 +181,7 @@ type caseRun struct {
 	entries []entry
 	ids     map[int64][]ids
 	sh      *shadow
+	idx     int  // case index
 	peer    bool // the leader's log has a second consumer group (remote follower peerNode)
 	tainted bool // a (known) loss of names happened: ids get reused from here on, stop the case
 	broken  bool // harness-level problem: stop the case
@@ -2530,6 +2531,12 @@ func (r *caseRun) randomCase(disciplined bool) {
 			known = append(known, [2]int{m, t})
 		}
 	}
+	if !r.multi() && !r.expired && r.idx%5 == 2 {
+		// every fifth history: the leader's log also feeds a remote follower (second consumer group); its
+		// acknowledgements and the WAL GC ticks are derived from the history so far (no draw from rng: the
+		// other cases' histories stay as they were)
+		r.opPeerJoin()
+	}
 	crashes := 0
 	maybeCrash := func(p int) bool {
 		if r.broken || r.tainted || r.terminal || crashes >= 3 || rng.Intn(100) >= p {
@@ -2614,7 +2621,13 @@ func (r *caseRun) randomCase(disciplined bool) {
 		case k < 50:
 			r.applyAll()
 		case k < 55:
-			r.opGC()
+			if r.peer && r.n.part != nil {
+				// the follower acknowledged everything / all but the last one or two entries, then GC ticks
+				r.opPeerAck(r.n.fq.Queue().AppendedSeq() - int64((len(r.entries)+i)%3))
+				r.opQSync(3)
+			} else {
+				r.opGC()
+			}
 		case k < 59:
 			maybeCrash(100)
 		case k < 62:
@@ -2802,7 +2815,7 @@ func (area) Run(c *core.Ctx) error {
 			continue
 		}
 		c.Begin(i)
-		r := &caseRun{c: c, rng: c.Rng(i), famTime: hour, ids: map[int64][]ids{}, lossFate: map[int64]string{},
+		r := &caseRun{c: c, idx: i, rng: c.Rng(i), famTime: hour, ids: map[int64][]ids{}, lossFate: map[int64]string{},
 			sh: &shadow{metric: newDict(), tagv: newDict(), index: newDict(), swapOnEmpty: swap, fate: map[int64]string{}, idxFate: map[string]string{}}}
 		r.innerK = -1
 		if i == 17 {
